@@ -68,11 +68,15 @@ def fmtEvNat (t : Nat) : Event Nat → String
   | .reconnecting => s!"ev notice {t}"
   | .item x => s!"ev item {x} {t}"
 
+/-- The trace of a run: one `ev` line per observable step, then `evn <count>` — the number of `ev`
+lines, stated explicitly so that the SPEC says where the trace ends (oracle review C12-M1: surplus
+events after the prescribed trace, e.g. behind a still-open connection, fail `evn`) — then `fin`. -/
 def fmtRun {α : Type} (f : Nat → α → String) (r : Run α) : List String :=
-  ((stamps 0 r.steps).filterMap fun (t, s) =>
+  let evs := (stamps 0 r.steps).filterMap fun (t, s) =>
     match s with
     | .yield a => some (f t a)
-    | .eff e => fmtEff t e) ++ [fmtFin r.fin]
+    | .eff e => fmtEff t e
+  evs ++ [s!"evn {evs.length}", fmtFin r.fin]
 
 structure St where
   policy : Policy
